@@ -313,7 +313,25 @@ function runBatch(ctx, batch) {
   }
 }
 
+/** Findings recorded by their witness only (re-run on every invocation). */
+function runFindingWitnesses(ctx) {
+  const { report } = ctx
+  const smapOf = (src) => compileMany([{ id: 0, files: [['p', src]], scripts: [] }], { smap: true }).get(0).files.p.smap_plain || []
+  const witnesses = [
+    ['value-location-from-last-binding', '<div>{{ first }}\n{{ second }}</div>', (m) => m.some((t) => t[0] === 0 && t[1] === 5 && t[2] === 1), 'a text / attribute value with several bindings is located from its LAST `{{`: the first `{{` printed maps to the source position of the last one, and Value::location() starts after the first bindings'],
+    ['converted-attribute-name-in-source-map', '<input model:input-value="{{ v }}"/>', (m) => m.some((t) => t[4] === 'inputValue'), 'an attribute whose name is normalised (`model:input-value` -> `inputValue`, `data-user-id` -> `userId`) carries the normalised name, not the source spelling, as its source-map name'],
+    ['if-chain-wrappers-share-tag-location', '<a wx:if="{{ x }}">1</a>\n<b wx:else>3</b>', (m) => m.filter((t) => t[2] === 0 && t[3] === 0).length >= 2, 'the <block> wrappers printed for wx:elif / wx:else branches all map to the tag of the first branch (one tag_location is kept for the whole chain)'],
+  ]
+  for (const [slug, src, pred, text] of witnesses) {
+    let m
+    try { m = smapOf(src) } catch (e) { m = null }
+    if (m && pred(m)) report.knownHit(slug, text)
+    else report.notes.push(`STALE-FINDING ${slug}: the recorded witness no longer reproduces`)
+  }
+}
+
 export async function run(ctx) {
+  if (ctx.shard === 0) runFindingWitnesses(ctx)
   const N = ctx.tier === 'thorough' ? 12000 : 1500
   const cases = makeCases(ctx, N)
   for (let i = 0; i < cases.length; i += 300) runBatch(ctx, cases.slice(i, i + 300))
